@@ -63,8 +63,9 @@ def _idx(e):
 def run(ctx):
     ctx.explanation = ('Clause level, insertion and deletion only: the index expressions of parsec_argv_delete (free range, shift distance and extent, terminator, amount taken from *argc) '
                        'and of parsec_argv_insert / parsec_argv_insert_element (room reallocated, suffix moved up by the number of new entries from the last one down, terminator, '
-                       'positions written) agree with one another in affine normal form: necessary for "change exactly the addressed positions".')
-    ctx.not_decided = 'split / join round trips, command-line parsing (string values); argv_delete / insert on vectors that are not NULL-terminated.'
+                       'positions written) agree with one another in affine normal form: necessary for "change exactly the addressed positions"; parsec_argv_join / join_range allocate sum(strlen + 1) bytes, '
+                       'terminate in the last one and fill exactly the bytes before it (bounded write).')
+    ctx.not_decided = 'split / join round trips as values, command-line parsing; argv_delete / insert on vectors that are not NULL-terminated.'
     u = ctx.extract(U)
     ra = ctx.rule('R39.a', 'parsec_argv_delete: free range, shift, terminator and reported count agree', floor=5)
     rb = ctx.rule('R39.b', 'parsec_argv_insert[_element]: room, suffix shift (descending), terminator and written positions agree', floor=10)
